@@ -141,7 +141,8 @@ void describe_msg(Case& c, Rng& r) {
   int64_t n;
   if (d < 1) {
     // lengths that do not fit 16 bits (a length folded into a hash through a narrow type deviates only here)
-    static const std::vector<int> big = {65535, 65536, 65537, 65599, 70000, 131071, 131072, 196608};
+    // ... nor 20 bits: chunked absorption of very long inputs is a code path of its own
+    static const std::vector<int> big = {65535, 65536, 65537, 65599, 70000, 131071, 131072, 196608, 1048575, 1048576, 1048577, 1200000, 2097153, 3000001};
     n = r.pick(big);
   } else if (d < 4)
     n = 0; // the empty message
@@ -369,7 +370,21 @@ model::Challenge challenge_from_case(const Case& c, const model::Params& p) {
     else if (spec == "spread")
       for (int i = 0; i < p.u; i++)
         C.push_back((uint16_t)((long)i * p.T / p.u));
-    else if (spec == "ends") {
+    else if (spec == "edge") {
+      // the ragged right edge of the truncated tree: a random non-empty proper subset of the last 6 leaves is opened, the
+      // rest spread randomly (single-child nodes and missing siblings only exist there)
+      std::vector<uint16_t> all;
+      unsigned mask = c.has("oedge") ? (unsigned)(1 + c.u("oedge") % 62) : 1 + (unsigned)r.below(62);
+      for (int i = 0; i < 6; i++)
+        if (mask & (1u << i))
+          C.push_back((uint16_t)(p.T - 1 - i));
+      for (int t = 0; t < p.T - 6; t++)
+        all.push_back((uint16_t)t);
+      for (int t = (int)all.size() - 1; t > 0; t--)
+        std::swap(all[t], all[r.below(t + 1)]);
+      for (size_t i = 0; (int)C.size() < p.u; i++)
+        C.push_back(all[i]);
+    } else if (spec == "ends") {
       for (int i = 0; i < p.u / 2; i++)
         C.push_back((uint16_t)i);
       for (int i = 0; (int)C.size() < p.u; i++)
